@@ -37,19 +37,19 @@ CHECKS = {
  "C11": ("path enumeration with branch facts (error/count result discipline), must-pass-through (fsync), unit-aware open-path rule",
          "Decides for every path through every system call of the file disk that a failure cannot reach a normal return (error tested or returned; pread/pwrite count proven equal to the block size), that Barrier/Close pass through fsync/close of the disk's descriptor on every returning path, and that a successful open either resizes a regular file to numBlocks*BlockSize bytes or proved that size in bytes, with O_CREAT|O_RDWR and without O_TRUNC. Level 'other'.",
          "Durability on hardware and crash recovery are not decided; documented syscall semantics trusted.", "DESIGN.md §4 C11"),
- "C12": ("alias/provenance flow on SSA, must-facts (create-only-when-absent, result constant under the existence fact), sibling shape, origin analysis of the listing result",
+ "C12": ("alias/provenance flow on SSA, must-facts (create-only-when-absent, result constant under the existence fact), sibling shape, parameter roles of Link in both implementations, origin analysis of the listing result",
          "Decides necessary structural clauses of the reference model for all histories: descriptors come from a fresh allocation, caller/returned byte slices never alias stored contents, Create updates nothing when the name exists, ReadAt returns buf[:n] of a fresh buffer from the requested offset, Link shares the inode, Delete removes only the directory entry, wrappers forward, AtomicCreate installs exactly the data. Level 'other'.",
          "Equality with a reference model over all histories is not decided. One known finding (MemFs.Open shares the creator's descriptor).", "DESIGN.md §4 C12"),
  "C13": ("protocol-order dominance + path enumeration, write-all loop idioms (remaining slice, offset), flag and path-provenance checks, shared non-zero counter step",
          "Decides on every normally returning path of the directory-backed AtomicCreate the order openat(staging) < write-all < fsync < renameat, every error checked, staging file starts empty, rename source is the staging path, staging path unique per call; and that the in-memory version installs a private complete copy under a fresh inode. Level 'other'.",
          "Host-filesystem crash atomicity and rename atomicity are trusted, not decided.", "DESIGN.md §4 C13"),
- "C14": ("lockset dataflow with interprocedural helper entry states, allocator freshness idiom (every allocated number inserted before return), flag checks",
+ "C14": ("lockset dataflow with interprocedural helper entry states, allocator freshness idiom (every allocated number inserted before return), exactly one acquisition of the mutex on every abstract path of an operation, flag checks",
          "Decides for every interleaving the lock discipline of the in-memory filesystem (all map reads/writes under its mutex, helpers only called with it held, released on every exit incl. panics), that the inode allocator is fresh (insert-only contents map, len+1), that DirFs.Create is a single O_CREAT|O_EXCL openat and DirFs has no in-process shared state. Level 'other'.",
          "Linearizability against the model and kernel atomicity are not decided.", "DESIGN.md §4 C14"),
  "C15": ("idiom recognition over the resolved program (delegation to encoding/binary.LittleEndian or explicit little-endian lane map)",
          "Decides that each Put/Get is exactly a forwarded call of the matching LittleEndian method (or a verified lane idiom with refusal-before-write); with the documented contract of encoding/binary this gives little-endian framing and invertibility for every value and buffer. Level 'other'.",
          "Trusted base: documented contract of encoding/binary.", "DESIGN.md §4 C15"),
- "C16": ("idiom recognition + exhaustive two-valued CFG evaluation (Assume/Assert)",
+ "C16": ("idiom recognition + exhaustive two-valued CFG evaluation (Assume/Assert); forwarding shape or, for a timed wait implemented here, lock-last and timer facts on its abstract paths; the implementation of the timed wait is followed into the dependency and every return must observe the completion of the background waiter it started (select-arm facts)",
          "Decides canonical-decimal formatting of the uint64 parameter, delete-all MapClear (clear builtin), Assume/Assert panic iff the argument is false by exhaustive evaluation of their CFG for c in {true,false}, and the forwarding shape of WaitTimeout/NewProph/Sleep. Level 'other'.",
          "WaitTimeout's timing and lock state live in another module and are timing dependent: not decided.", "DESIGN.md §4 C16"),
  "C17": ("abstract interprocedural paths of translate/TranslatePackages/the file writer (helpers spliced in, loop state symbolic so that a one-iteration path is an inductive step) for exit status, write gating, file placement, compare-before-write and loading; phi-structure of the error flag or integer status; exit status as what reaches os.Exit (directly or as the returned status); dominance of flag.Parse; table extraction of loader config and flag wiring",
